@@ -17,6 +17,7 @@ import (
 	"github.com/marekgalovic/anndb/services"
 	"github.com/marekgalovic/anndb/storage"
 	"github.com/marekgalovic/anndb/storage/raft"
+	"github.com/marekgalovic/anndb/storage/wal"
 
 	etcdRaft "github.com/coreos/etcd/raft"
 	badger "github.com/dgraph-io/badger/v2"
@@ -33,7 +34,9 @@ func quietLogs() {
 }
 
 func memBadger() *badger.DB {
-	opt := badger.DefaultOptions("").WithInMemory(true)
+	// small tables: the harness opens many in-memory stores and never closes them (goroutines of abandoned
+	// "crashed" incarnations and the groups' 10 s snapshot tickers may still touch a store)
+	opt := badger.DefaultOptions("").WithInMemory(true).WithMaxTableSize(1 << 20).WithNumMemtables(2).WithNumCompactors(1).WithValueLogFileSize(1 << 20)
 	opt.Logger = nil
 	db, err := badger.Open(opt)
 	if err != nil {
@@ -58,6 +61,10 @@ type simNode struct {
 type simCluster struct {
 	nodes map[uint64]*simNode
 	ids   []uint64
+	// optional: wrap the log store of (node, partition index) before its raft group is loaded
+	wrapWAL func(node uint64, part int, w wal.WAL) wal.WAL
+	// optional: observe every raft message (after the reachability check)
+	onRaftMsg func(from, to uint64, req *pb.RaftMessage)
 }
 
 func newSimCluster(ids []uint64) *simCluster {
@@ -73,7 +80,7 @@ func newSimCluster(ids []uint64) *simCluster {
 		for _, b := range c.nodes {
 			if a.id != b.id {
 				a.conn.AddNode(b.id, fmt.Sprintf("sim-%d", b.id))
-				a.transport.VerifSetPeerClient(b.id, &memRaftClient{from: a, to: b})
+				a.transport.VerifSetPeerClient(b.id, &memRaftClient{from: a, to: b, c: c})
 			}
 		}
 	}
@@ -86,10 +93,7 @@ func (c *simCluster) close() {
 			d.VerifClose()
 		}
 	}
-	time.Sleep(5 * time.Millisecond)
-	for _, n := range c.nodes {
-		n.db.Close()
-	}
+	time.Sleep(2 * time.Millisecond)
 }
 
 // createDataset builds the dataset on every node from the same metadata, loads raft for the partitions placed on
@@ -123,6 +127,10 @@ func (c *simCluster) createDataset(meta pb.Dataset) error {
 			n, ok := c.nodes[nid]
 			if !ok {
 				continue
+			}
+			if c.wrapWAL != nil {
+				node, part := nid, i
+				n.datasets[id].VerifWrapWAL(i, func(w wal.WAL) wal.WAL { return c.wrapWAL(node, part, w) })
 			}
 			if err := n.datasets[id].VerifLoadRaft(i, p.NodeIds); err != nil {
 				return err
@@ -208,9 +216,18 @@ func (n *simNode) setUnreachable(v bool)             { n.mu.Lock(); n.unreachabl
 func (n *simNode) setGate(g func(kind string) error) { n.mu.Lock(); n.gate = g; n.mu.Unlock() }
 
 // ---------------------------------------------------------------- raft transport shim
-type memRaftClient struct{ from, to *simNode }
+type memRaftClient struct {
+	from, to *simNode
+	c        *simCluster
+}
 
 func (c *memRaftClient) Receive(ctx context.Context, in *pb.RaftMessage, opts ...grpc.CallOption) (*pb.EmptyMessage, error) {
+	if c.c != nil && c.c.onRaftMsg != nil {
+		c.c.onRaftMsg(c.from.id, c.to.id, in) // the message has left the sender, whether or not it arrives
+	}
+	if err := c.from.check("raft-out"); err != nil {
+		return nil, err
+	}
 	if err := c.to.check("raft"); err != nil {
 		return nil, err
 	}
